@@ -36,12 +36,6 @@ def register(S):
 
     # ---- Connection entry points an AsyncResult drives (interface contracts; bodies verified under C11) --------
     C = "rpyc/core/protocol.py::Connection."
-    S.contract(C + "serve", params={"self": "obj:Connection", "timeout": "any", "wait_for_lock": "any"}, result="any",
-               trusted=True, note="ASSUMED here (interface): serves at most one incoming message within the timeout; may "
-                                  "dispatch a reply to any pending result of this connection; any exception may escape",
-               ensures={}, clock=True,
-               # (the transport's own timeouts are retried inside the streams and never escape as TimeoutError)
-               raises={"BaseException": {"state": ["not exc_is(exc, 'TimeoutError')"], "props": ["C15"]}}, modifies=[])
     S.contract(C + "poll_all", params={"self": "obj:Connection", "timeout": "any"}, result="any", trusted=True,
                note="ASSUMED here (interface): serves what has arrived; EOFError is swallowed",
                ensures={}, clock=True,
@@ -102,7 +96,7 @@ def register(S):
                    "modifies": ["self._is_ready", "self._is_exc", "self._obj", "self._callbacks"]},
                    "BaseException": {"props": P15, "modifies": ["self._is_ready", "self._is_exc", "self._obj", "self._callbacks"]}},
                modifies=["self._is_ready", "self._is_exc", "self._obj", "self._callbacks"],
-               calls={"serve": {"interference": REENTRY}},
+               calls={"serve": {"interference": REENTRY, "behaviour": "as_seen_by_a_waiter"}},
                loops={0: {"modifies": ["self._is_ready", "self._is_exc", "self._obj", "self._callbacks"], "clock": True,
                           "invariant": ["self._ttl is old(self._ttl)", "self._conn is old(self._conn)"],
                           # the wait is bounded by the result's OWN deadline object, not by a fresh relative timeout
